@@ -1,6 +1,7 @@
 import GN.Buffer.Num
 import GN.Buffer.KernelLemmas
 import GN.Buffer.EncLemmas
+import GN.Buffer.CallLemmas
 
 /-!
 # C10 — Buffer numeric read/write: exact encodings and range checks, no stray byte
@@ -101,5 +102,22 @@ theorem failure_leaves_buffer_unchanged (m : Generated.MethodFacts) (buf : List 
     (c : ErrClass) (h : (writeModel m buf args).out = .throw c) : (writeModel m buf args).buf = buf := by
   unfold writeModel at *
   cases hc : writeCore m buf args <;> simp_all [finish]
+
+/-- **End to end: the model refines the specification.** For every method name, every buffer, every argument
+tuple in the property's claimed domain (integral values/offsets, BigInts, floats; undefined, missing or
+wrong-typed arguments), the call as the code performs it — coercions in the code's order, generated guards,
+generated range checks, the code's shifts and stores — produces exactly what the name-derived specification
+prescribes: the same thrown/returned outcome (RangeError and TypeError being one class), the same returned
+number, and the same buffer bytes afterwards; in particular it never panics and a failing call leaves the
+buffer unchanged. -/
+theorem model_refines_spec (jsName : String) (buf : List UInt8) (args : List JArg) (r : CallResult)
+    (hlen : buf.length < 2 ^ 62) (h : specCall jsName buf args = some r) :
+    ∃ r', callModel jsName buf args = some r' ∧ Agrees r' r :=
+  callModel_refines_spec jsName buf args r hlen h
+
+/-- every name the specification knows is a registered method with well-formed facts -/
+theorem every_specified_name_is_registered (jsName : String) (d : Desc) (h : descOfName jsName = some d) :
+    ∃ impl m, implOf jsName = some impl ∧ lookupFacts impl = some m ∧ WF m d = true :=
+  facts_of_desc jsName d h
 
 end GN.Props.C10
